@@ -250,7 +250,10 @@ def run(ck: Check):
                     got = "ImportError"  # a subclass: "an unknown name is an error"
                 key = None
                 if got != origin:
-                    if res.get("ok") and str(got).startswith(("../", "/")) or (res.get("ok") and not res.get("marker")):
+                    # the known finding: a path whose module name is already imported (json) resolves to THAT module
+                    stem = os.path.splitext(os.path.basename(name))[0]
+                    if (res.get("ok") and not res.get("marker") and "/" in name and stem in ("json", "re", "logging")
+                            and os.path.splitext(os.path.basename(str(got)))[0] in (stem, "__init__")):
                         key = "import-shadowed-by-sys-modules"
                     ck.violation(f"test name {name!r} resolved to {got!r}, documented resolution {origin!r}",
                                  {"argv": argv, "got": res}, key=key)
